@@ -25,6 +25,7 @@
  *   r <idx> <pos> <row> <speed> <bpm> <nframes> <regular> <us before> <fi.time us>
  *   rowhash <fnv of all (pos,row,speed,bpm,nframes,regular)>
  *   tour <visits> ok <n>                           (reposition tour, multi-sequence modules only)
+ *   restarts <visits> ok <n>                       (xmp_end_player + xmp_start_player, xmp_restart_module)
  *   oracle_fail <kind> …
  *   endcase
  *
@@ -354,18 +355,109 @@ static void play_sequence(xmp_context opaque, int k, int rate, int maxframes)
 	}
 }
 
-/* Reposition tour: one running player, xmp_set_position from sequence to sequence. */
+/* Render with the running player until the loop counter exceeds `base`; compare what was rendered with
+ * sequence k's reported duration and with the trace of its fresh run.  Returns 1 if the loop point was
+ * reached (whatever the comparison said), 0 if not (frame budget, error). */
+static int measure(xmp_context opaque, int k, int base, int *budget, const char *label, int visit, int *okv)
+{
+	struct context_data *ctx = (struct context_data *)opaque;
+	struct module_data *m = &ctx->m;
+	struct player_data *p = &ctx->p;
+	struct xmp_frame_info fi;
+	int duration = m->seq_data[k].duration;
+	int frames = 0, nr = 0, lpos = -1, lrow = -1, ln = 0, lspeed = 0, lbpm = 0, lreg = 1, done = 0, rc;
+	double total = 0.0, min_tick = 1e9;
+	uint64_t h = FNV_INIT;
+
+	while ((*budget)-- > 0) {
+		double ft;
+		rc = xmp_play_frame(opaque);
+		if (rc != 0) {
+			printf("oracle_fail %s_play_frame seq %d visit %d rc %d\n", label, k, visit, rc);
+			return 0;
+		}
+		xmp_get_frame_info(opaque, &fi);
+		if (fi.sequence != k) {
+			printf("oracle_fail %s_sequence seq %d visit %d reports %d\n", label, k, visit, fi.sequence);
+			return 0;
+		}
+		if (fi.loop_count > base) {
+			done = 1;
+			break;
+		}
+		ft = p->frame_time;
+		if (ft < min_tick)
+			min_tick = ft;
+		if (fi.frame == 0) {
+			if (nr > 0) {
+				int w[6], j;
+				w[0] = lpos; w[1] = lrow; w[2] = lspeed; w[3] = lbpm; w[4] = ln; w[5] = lreg;
+				for (j = 0; j < 6; j++)
+					h = (h ^ (uint64_t)w[j]) * 0x100000001b3ULL;
+			}
+			nr++;
+			lpos = fi.pos; lrow = fi.row; lspeed = fi.speed; lbpm = fi.bpm; ln = 1; lreg = 1;
+		} else {
+			if (nr == 0 || fi.pos != lpos || fi.row != lrow || fi.speed != lspeed || fi.bpm != lbpm || fi.frame != ln)
+				lreg = 0;
+			ln++;
+		}
+		total += ft;
+		frames++;
+	}
+	if (!done)
+		return 0;		/* frame budget used up */
+	if (nr > 0) {
+		int w[6], j;
+		w[0] = lpos; w[1] = lrow; w[2] = lspeed; w[3] = lbpm; w[4] = ln; w[5] = lreg;
+		for (j = 0; j < 6; j++)
+			h = (h ^ (uint64_t)w[j]) * 0x100000001b3ULL;
+	}
+	if (min_tick > 1e8)
+		min_tick = 0.0;
+	if (fabs((double)duration - total) >= min_tick) {
+		printf("oracle_fail %s_duration seq %d visit %d: reported %d ms rendered %.3f ms (one tick = %.3f ms)\n",
+		       label, k, visit, duration, total, min_tick);
+	} else if (frames != fresh_frames[k] || h != fresh_hash[k]) {
+		printf("oracle_fail %s_rows seq %d visit %d: %d frames hash %llu, fresh run %d frames hash %llu\n",
+		       label, k, visit, frames, (unsigned long long)h, fresh_frames[k], (unsigned long long)fresh_hash[k]);
+	} else {
+		(*okv)++;
+	}
+	if (fi.total_time != duration)
+		printf("oracle_fail %s_total_time seq %d visit %d frame_info.total_time %d duration %d\n", label, k, visit, fi.total_time, duration);
+	return 1;
+}
+
+static uint64_t lcg(uint64_t *rng)
+{
+	*rng = *rng * 6364136223846793005ULL + 1442695040888963407ULL;
+	return *rng >> 33;
+}
+
+static void play_some(xmp_context opaque, int n, int *budget)
+{
+	for (; n > 0 && *budget > 0; n--, (*budget)--) {
+		if (xmp_play_frame(opaque) != 0)
+			break;
+	}
+}
+
+/* Reposition tour: one running player, xmp_set_position from sequence to sequence; then player restarts
+ * (xmp_end_player + xmp_start_player after another sequence was selected; xmp_restart_module in the
+ * middle of a sequence, preferably in the middle of a pattern-delay / row-delay row). */
 static void tour(xmp_context opaque, int rate, int maxframes, uint64_t seed)
 {
 	struct context_data *ctx = (struct context_data *)opaque;
 	struct module_data *m = &ctx->m;
 	struct player_data *p = &ctx->p;
 	struct xmp_frame_info fi;
-	int nseq = m->num_sequences, visits = 0, okv = 0, v, k, i, rc;
+	int nseq = m->num_sequences, visits = 0, okv = 0, v, k, i;
 	uint64_t rng = seed | 1;
 	int budget = maxframes;
+	int rvisits = 0, rok = 0;
 
-	if (nseq < 2 || nseq > 255)
+	if (nseq < 1 || nseq > 255)
 		return;
 	for (k = 0; k < nseq; k++) {
 		if (!fresh_ok[k])
@@ -375,96 +467,74 @@ static void tour(xmp_context opaque, int rate, int maxframes, uint64_t seed)
 		printf("oracle_fail tour_start\n");
 		return;
 	}
-	/* play a part of the main sequence first, so that the player state is in the middle of it */
-	rng = rng * 6364136223846793005ULL + 1442695040888963407ULL;
-	for (i = (int)((rng >> 33) % (uint64_t)(fresh_frames[0] + 1)); i > 0 && budget > 0; i--, budget--) {
-		if (xmp_play_frame(opaque) != 0)
-			break;
-	}
-	/* visit every sequence twice, in an order that changes the predecessor: 1, 2, …, n-1, 0, n-1, …, 1, 0 */
-	for (v = 0; v < 2 * nseq && budget > 0; v++) {
-		int ep, duration, base, frames = 0, nr = 0, lpos = -1, lrow = -1, ln = 0, lspeed = 0, lbpm = 0, lreg = 1;
-		double total = 0.0, min_tick = 1e9;
-		uint64_t h = FNV_INIT;
-		int done = 0, extra;
-
-		k = v < nseq ? (v + 1) % nseq : (2 * nseq - 1 - v) % nseq;
-		ep = m->seq_data[k].entry_point;
-		duration = m->seq_data[k].duration;
-		xmp_set_position(opaque, ep);
-		if (p->pos == p->ord)
-			continue;	/* the target (after skip markers) is the order being played: xmp_play_frame sees no
-					 * reposition and goes on in the middle of it -- not a run from the sequence start */
-		xmp_get_frame_info(opaque, &fi);
-		base = fi.loop_count;
-		visits++;
-		while (budget-- > 0) {
-			double ft;
-			rc = xmp_play_frame(opaque);
-			if (rc != 0) {
-				printf("oracle_fail tour_play_frame seq %d visit %d rc %d\n", k, v, rc);
-				break;
-			}
+	if (nseq >= 2) {
+		/* play a part of the main sequence first, so that the player state is in the middle of it */
+		play_some(opaque, (int)(lcg(&rng) % (uint64_t)(fresh_frames[0] + 1)), &budget);
+		/* visit every sequence twice, in an order that changes the predecessor: 1, 2, …, n-1, 0, n-1, …, 1, 0 */
+		for (v = 0; v < 2 * nseq && budget > 0; v++) {
+			int base;
+			k = v < nseq ? (v + 1) % nseq : (2 * nseq - 1 - v) % nseq;
+			xmp_set_position(opaque, m->seq_data[k].entry_point);
+			if (p->pos == p->ord)
+				continue;	/* the target (after skip markers) is the order being played: xmp_play_frame sees no
+						 * reposition and goes on in the middle of it -- not a run from the sequence start */
 			xmp_get_frame_info(opaque, &fi);
-			if (fi.sequence != k) {
-				printf("oracle_fail tour_sequence seq %d visit %d reports %d\n", k, v, fi.sequence);
+			base = fi.loop_count;
+			visits++;
+			if (!measure(opaque, k, base, &budget, "tour", v, &okv))
+				break;
+			/* go on into the loop for a while: the next reposition starts from the middle of this sequence */
+			play_some(opaque, (int)(lcg(&rng) % (uint64_t)(fresh_frames[k] + 1)), &budget);
+		}
+	}
+	printf("tour %d ok %d\n", visits, okv);
+
+	/* A: another sequence selected, then the player is stopped and started again: order 0 of the main
+	 * sequence plays, with the main sequence's duration and end point */
+	if (nseq >= 2 && budget > 0) {
+		k = 1 + (int)(lcg(&rng) % (uint64_t)(nseq - 1));
+		xmp_set_position(opaque, m->seq_data[k].entry_point);
+		play_some(opaque, 1 + (int)(lcg(&rng) % (uint64_t)(fresh_frames[k] + 1)), &budget);
+		xmp_end_player(opaque);
+		if (xmp_start_player(opaque, rate, XMP_FORMAT_MONO | XMP_FORMAT_8BIT) != 0) {
+			printf("oracle_fail restart_start\n");
+			return;
+		}
+		rvisits++;
+		if (!measure(opaque, 0, 0, &budget, "startplayer", k, &rok))
+			goto out;
+		play_some(opaque, (int)(lcg(&rng) % (uint64_t)(fresh_frames[0] + 1)), &budget);
+	}
+	/* B: xmp_restart_module in the middle of each sequence in turn (stopping, if one comes up soon enough, in
+	 * the middle of a row that is being delayed): the sequence plays again from its entry point */
+	for (v = 0; v < nseq && v < 4 && budget > 0; v++) {
+		int limit, found = 0;
+		k = v == 0 ? 0 : 1 + (int)(lcg(&rng) % (uint64_t)(nseq - 1));
+		if (v > 0) {
+			xmp_set_position(opaque, m->seq_data[k].entry_point);
+			if (p->pos == p->ord)
+				continue;
+		} else if (p->sequence != 0) {
+			continue;
+		}
+		play_some(opaque, 1 + (int)(lcg(&rng) % (uint64_t)(fresh_frames[k] + 1)), &budget);
+		limit = fresh_frames[k] + 1;
+		for (i = 0; i < limit && budget > 0; i++, budget--) {
+			if ((p->flow.delay > 0 || p->flow.rowdelay > 0) && p->frame >= 1) {
+				found = 1;
 				break;
 			}
-			if (fi.loop_count > base) {
-				done = 1;
-				break;
-			}
-			ft = p->frame_time;
-			if (ft < min_tick)
-				min_tick = ft;
-			if (fi.frame == 0) {
-				if (nr > 0) {
-					int w[6], j;
-					w[0] = lpos; w[1] = lrow; w[2] = lspeed; w[3] = lbpm; w[4] = ln; w[5] = lreg;
-					for (j = 0; j < 6; j++)
-						h = (h ^ (uint64_t)w[j]) * 0x100000001b3ULL;
-				}
-				nr++;
-				lpos = fi.pos; lrow = fi.row; lspeed = fi.speed; lbpm = fi.bpm; ln = 1; lreg = 1;
-			} else {
-				if (nr == 0 || fi.pos != lpos || fi.row != lrow || fi.speed != lspeed || fi.bpm != lbpm || fi.frame != ln)
-					lreg = 0;
-				ln++;
-			}
-			total += ft;
-			frames++;
-		}
-		if (!done)
-			break;		/* frame budget used up (or reported above) */
-		if (nr > 0) {
-			int w[6], j;
-			w[0] = lpos; w[1] = lrow; w[2] = lspeed; w[3] = lbpm; w[4] = ln; w[5] = lreg;
-			for (j = 0; j < 6; j++)
-				h = (h ^ (uint64_t)w[j]) * 0x100000001b3ULL;
-		}
-		if (min_tick > 1e8)
-			min_tick = 0.0;
-		if (fabs((double)duration - total) >= min_tick) {
-			printf("oracle_fail tour_duration seq %d visit %d after reposition: reported %d ms rendered %.3f ms (one tick = %.3f ms)\n",
-			       k, v, duration, total, min_tick);
-		} else if (frames != fresh_frames[k] || h != fresh_hash[k]) {
-			printf("oracle_fail tour_rows seq %d visit %d after reposition: %d frames hash %llu, fresh run %d frames hash %llu\n",
-			       k, v, frames, (unsigned long long)h, fresh_frames[k], (unsigned long long)fresh_hash[k]);
-		} else {
-			okv++;
-		}
-		if (fi.total_time != duration)
-			printf("oracle_fail tour_total_time seq %d visit %d frame_info.total_time %d duration %d\n", k, v, fi.total_time, duration);
-		/* go on into the loop for a while: the next reposition starts from the middle of this sequence */
-		rng = rng * 6364136223846793005ULL + 1442695040888963407ULL;
-		extra = (int)((rng >> 33) % (uint64_t)(fresh_frames[k] + 1));
-		for (i = 0; i < extra && budget > 0; i++, budget--) {
 			if (xmp_play_frame(opaque) != 0)
 				break;
 		}
+		xmp_restart_module(opaque);
+		rvisits++;
+		if (!measure(opaque, k, 0, &budget, found ? "restart_in_delay" : "restart", k, &rok))
+			goto out;
 	}
+out:
 	xmp_end_player(opaque);
-	printf("tour %d ok %d\n", visits, okv);
+	printf("restarts %d ok %d\n", rvisits, rok);
 }
 
 int main(int argc, char **argv)
